@@ -662,3 +662,76 @@ def instr_replay(ctx, c, want):
         if row['k'] == n['k'] and any(k in want for k in row['kinds']):
             print('REPRODUCED:', row['verdict']); bad = True
     return 1 if bad else 0
+
+
+# ------------------------------------------------------------------------------------------
+# close() landing at every INSTRUCTION boundary of wait() / forever().next() / one poll_signal of the
+# asynchronous back end (harness/src/bin/p_nested_close.rs; fork per boundary)
+CLOSE_CONFIGS = [('q', '-'), ('q', 's'), ('q', 't'), ('q', 'st'), ('w', 's'), ('w', 't'), ('w', 'ts'), ('f', 's'), ('f', 't'), ('f', 'st')]
+CLOSE_NAMES = {'q': 'poll_signal (non-blocking callback)', 'w': 'wait()', 'f': 'forever().next()'}
+C11_KINDS = ('UNARMED', 'STRANDED', 'STICKY', 'ENDLESS', 'ERR', 'BLOCKED', 'CRASH')
+
+
+def close_one(cfg, konly=None, timeout=240):
+    cmd = [common.bin_path('p_nested_close')] + list(cfg) + ([str(konly)] if konly else [])
+    rc, out, _ = common.sh(cmd, timeout=timeout)
+    rows, end = [], None
+    for l in out.split('\n'):
+        p = l.split(' ', 2)
+        if p[0] == 'K' and len(p) == 3:
+            verdict, _, rest = p[2].partition(' | ')
+            kinds = sorted(set(part.split(' ', 1)[0] for part in verdict[4:].split('; '))) if verdict.startswith('BAD') else []
+            rows.append({'k': int(p[1]), 'kinds': kinds, 'verdict': verdict, 'observed': rest})
+        elif p[0] == 'X' and len(p) == 3:
+            rows.append({'k': int(p[1]), 'kinds': ['BLOCKED' if p[2].strip() == 'signal 14' else 'CRASH'], 'observed': '',
+                         'verdict': 'the consumer did not come back after close() (killed by the 3 s alarm)' if p[2].strip() == 'signal 14' else 'the process died: ' + p[2]})
+        elif p[0] == 'P':
+            rows.append({'k': int(p[1]) if len(p) > 1 and p[1].isdigit() else 0, 'kinds': ['CRASH'], 'verdict': 'panic: ' + l, 'observed': ''})
+        elif p[0] == 'E':
+            end = int(p[1])
+    return {'cfg': cfg, 'rows': rows, 'end': end, 'rc': rc, 'tail': out[-300:]}
+
+
+def close_sweep(ctx, want):
+    from concurrent.futures import ThreadPoolExecutor
+    with ThreadPoolExecutor(max_workers=10) as ex:
+        results = list(ex.map(close_one, CLOSE_CONFIGS))
+    hits, total, incomplete, per = {}, 0, [], {}
+    for res in results:
+        o, pre = cfg = res['cfg']
+        name = '%s after deliveries "%s"' % (CLOSE_NAMES[o], pre)
+        per['/'.join(cfg)] = res['end']
+        if res['end'] is None:
+            incomplete.append('%s: %s' % (name, res['tail']))
+        confirmed = 0
+        for row in res['rows']:
+            total += 1
+            ctx.evaluations += 1
+            if row['kinds'] == ['BLOCKED']:
+                confirmed += 1
+                if confirmed <= 3:
+                    again = close_one(cfg, konly=row['k'], timeout=60)
+                    if not any(r2['k'] == row['k'] and r2['kinds'] == ['BLOCKED'] for r2 in again['rows']):
+                        hits['unconfirmed-stall'] = hits.get('unconfirmed-stall', 0) + 1
+                        continue
+            for kind in row['kinds']:
+                hits[kind] = hits.get(kind, 0) + 1
+                if kind in want and hits[kind] <= 3:
+                    ctx.violation({'monitor': 'close-' + kind, 'outer': o, 'pre': pre, 'k': row['k']},
+                                  '%s, close() called after %d instructions of the call: %s [%s]' % (name, row['k'], row['verdict'], row['observed']),
+                                  {'close_sweep': {'outer': o, 'pre': pre, 'k': row['k']}, 'observed': row})
+    ctx.correspondence('instruction-level close sweep ran to the end in all %d configurations' % len(CLOSE_CONFIGS), not incomplete, incomplete[:3])
+    ctx.coverage['instruction_close_sweep'] = {'configurations': len(CLOSE_CONFIGS), 'boundaries': total, 'complaints': hits, 'boundaries_per_configuration': per}
+    ctx.traces += total - sum(hits.values())
+
+
+def close_replay(ctx, c, want):
+    n = c['close_sweep']
+    ctx.harness(['p_nested_close'])
+    res = close_one((n['outer'], n['pre']), konly=n['k'], timeout=60)
+    bad = False
+    for row in res['rows']:
+        print('k=%d %s | %s' % (row['k'], row['verdict'], row['observed']))
+        if row['k'] == n['k'] and any(k in want for k in row['kinds']):
+            print('REPRODUCED:', row['verdict']); bad = True
+    return 1 if bad else 0
